@@ -174,7 +174,7 @@ def proof_status(prop: str) -> dict:
                 and len(assumptions) == len(order))
 
 
-_STR_RE = re.compile(r'=\s*"((?:[^"]|"")*)"\s*%string', re.S)
+_STR_RE = re.compile(r'=\s*"((?:[^"]|"")*)"\s*(?:%string)?\s*:\s*string', re.S)
 
 
 def coq_verdicts(prop: str, imports: str, case_type: str, verdict_fn: str, terms: list[str],
